@@ -25,7 +25,7 @@ Spec == Init /\ [][Next]_vars
 Programs ==
   IF t # Nil THEN {Ctx(c, t) : c \in (IF d < Depth \/ Depth < 2 THEN Contexts ELSE DeepContexts)}
   ELSE IF Len(ss) = 0 THEN {}
-  ELSE {Prog(ss), Prog(<<Node("fdecl", "", <<Id("h"), PList(<<>>), Blk(ss)>>)>>)}
+  ELSE (IF TopOK(ss) THEN {Prog(ss)} ELSE {}) \cup {Prog(<<Node("fdecl", "", <<Id("h"), PList(<<>>), Blk(ss)>>)>>)}
 
 Breaks(ts) ==
   {{}, 1..Len(ts)} \cup (IF d <= SingleBreaksUpTo /\ Len(ss) <= 1 THEN {{j} : j \in 2..Len(ts)} ELSE {})
